@@ -131,6 +131,14 @@ impl Session {
         }
     }
 
+    /// clean up after a session whose `run` future was dropped instead of running to its end
+    pub(crate) fn abandon_session(&mut self) {
+        match &mut self.inner {
+            SessionType::Master(_) => {}
+            SessionType::Outstation(x) => x.abandon_session(),
+        }
+    }
+
     pub(crate) async fn wait_for_enabled(&mut self) -> Result<(), Shutdown> {
         loop {
             if self.enabled() == Enabled::Yes {
